@@ -329,6 +329,77 @@ def run_flags_history(ctx):
             check_case(ctx, text, doc, "flags-history")
 
 
+def run_async_interleaved(ctx):
+    """ONE compiled query (bracketed lists of several selectors, slices, descendants, filters) evaluated through the async
+    API over several documents whose result iterators are advanced in turn inside one task, and as gathered tasks over
+    lazily loaded containers: every match must carry the root, the value, the location and the parent of ITS document."""
+    import asyncio
+    import random
+
+    import jsonpath
+
+    from .c08 import Plan, unwrap, wrap
+
+    r = ctx.rng
+    texts = ["$['a','b']", "$.x[0,-1]", "$..['k',0]", "$[*,'a']", "$.x[1:,0]", "$..[0,1]", "$.x[?@.k >= 0, 0]", "$['b','a'].k", "$..[?@.k]['k',0]"]
+    for text in texts:
+        q = jsonpath.compile(text)
+        docs = [{"a": {"k": i, "0": "z"}, "b": {"k": 10 + i}, "x": [{"k": i}, {"k": 20 + i}, [i, {"k": 30 + i}]][: 2 + i % 2]} for i in range(3)]
+
+        async def lockstep():
+            its = [await q.finditer_async(d) for d in docs]
+            out = [[] for _ in docs]
+            live = list(range(len(docs)))
+            while live:
+                for i in list(live):
+                    try:
+                        m = await its[i].__anext__()
+                    except StopAsyncIteration:
+                        live.remove(i)
+                        continue
+                    out[i].append(m)
+            return out
+        o = impl.call(lambda: asyncio.run(lockstep()))
+        ctx.evaluation()
+        ctx.count("async_iterators_of_one_query_advanced_in_turn", len(docs))
+        case = {"kind": "async-interleaved"}
+        if not o.ok:
+            ctx.violation("async-iterators-advanced-in-turn-raised:%s" % type(o.exc).__name__, case, {"text": text, "error": o.desc()})
+            return
+        for i, ms in enumerate(o.value):
+            want = [(tuple(m.parts), m.path) for m in q.finditer(docs[i])]
+            if [(tuple(m.parts), m.path) for m in ms] != want:
+                ctx.violation("match-location-wrong-when-async-iterators-of-one-query-are-advanced-in-turn", case, {"text": text, "document": i, "got": repr([(tuple(m.parts), m.path) for m in ms])[:300], "alone": repr(want)[:300]})
+                return
+            for m in ms:
+                cur = docs[i]
+                try:
+                    for p_ in m.parts:
+                        cur = cur[p_]
+                    par = docs[i]
+                    for p_ in tuple(m.parts)[:-1]:
+                        par = par[p_]
+                except Exception:  # noqa: BLE001
+                    cur = par = impl
+                if not same_node(m.obj, cur) or m.root is not docs[i] or m.path != normalized_path(tuple(m.parts)) or (m.parts and (m.parent is None or m.parent.obj is not par)):
+                    ctx.violation("match-belongs-to-another-document-when-async-iterators-of-one-query-are-advanced-in-turn", case, {"text": text, "document": i, "parts": list(m.parts), "value": canon(m.obj)[:80], "root_is_own_document": m.root is docs[i]})
+                    return
+        # gathered tasks over lazily loaded containers (getters that really suspend)
+        async def one(d):
+            plan = Plan({}, random.Random(r.random()), None)
+            return [(tuple(m.parts), m.path, canon(unwrap(m.obj)), canon(unwrap(m.root))[:200]) async for m in await q.finditer_async(wrap(d, plan))]
+
+        async def all_():
+            return await asyncio.gather(*[one(d) for d in docs])
+        g = impl.call(lambda: asyncio.run(all_()))
+        ctx.count("gathered_async_evaluations", len(docs))
+        for i in range(len(docs)):
+            want = [(tuple(m.parts), m.path, canon(m.obj), canon(docs[i])[:200]) for m in q.finditer(docs[i])]
+            if not g.ok or sorted(g.value[i]) != sorted(want):
+                ctx.violation("match-location-wrong-in-gathered-async-evaluations-of-one-query", case, {"text": text, "document": i, "got": g.desc() if not g.ok else repr(g.value[i])[:300], "alone": repr(want)[:300]})
+                return
+
+
 def run_recursion_limit(ctx, limit):
     """Documents nested from half the interpreter's recursion limit up to beyond it (process default, and a lowered
     limit).  A refusal (RecursionError) is the interpreter's; every match that IS reported must carry the location of the
@@ -395,6 +466,7 @@ def run(spec, ctx):
             ctx.cell("scale", "depth=%d" % depth)
         run_surrogates(ctx)
         run_flags_history(ctx)
+        run_async_interleaved(ctx)
         ctx.count("H2_matches_checked", hooks.STATE.h2_checked)
         return
     r = ctx.rng
@@ -445,6 +517,9 @@ def replay(case, ctx):
         return
     if case.get("kind") == "flags-history":
         run_flags_history(ctx)
+        return
+    if case.get("kind") == "async-interleaved":
+        run_async_interleaved(ctx)
         return
     if case.get("kind") == "recursion-limit":
         run_recursion_limit(ctx, case.get("limit"))
